@@ -47,3 +47,20 @@ Theorem c16_determine_blocks_is_source : forall cnt : nat,
   RRet [Z.of_nat (fst (determine_blocks cnt)); Z.of_nat (snd (determine_blocks cnt)); 0%Z].
 Proof. exact DecBlocks.determine_blocks_is_source. Qed.
 Print Assumptions c16_determine_blocks_is_source.
+
+(* the block start keys both enumerations keep between their passes are COPIES of the keys: the items they were taken from
+   are released when the first pass leaves their nodes (repaired defect dd291f6) *)
+From GK Require Import DecRecycle.
+From Coq Require Import List.
+Import ListNotations.
+Theorem c16_block_keys_are_copies_is_source :
+  hd (SReturn []) (body "<lit:Collection.VisitItemsAscendBlockEx#1>") =
+    SIf [] (GBin "==" (GVar "j") (GInt 0))
+      [SAssign [GVar "blockStore"] "=" [GCall "append" [GVar "blockStore"; copy_of "i.Key"]];
+       SAssign [GVar "j"] "=" [GInt 1]]
+      [SIf [] (GBin ">=" (GVar "j") (GVar "lenBlock")) [SAssign [GVar "j"] "=" [GInt 0]] [SIncDec (GVar "j") true]] /\
+  body "<lit:Collection.VisitItemsRandom#1>" = body "<lit:Collection.VisitItemsAscendBlockEx#1>" /\
+  In (SAssign [GCall "[]" [GVar "blockStore"; GVar "i"]] "=" [copy_of "itm.Key"])
+     (body "<lit:Collection.VisitItemsRandom#2>").
+Proof. exact DecRecycle.block_keys_are_copies. Qed.
+Print Assumptions c16_block_keys_are_copies_is_source.
